@@ -94,6 +94,8 @@ class Sim:
             evs.append(("connect",))
         for k in SENDS:
             evs.append(("send", k))
+        if self.connected and c.connection_state.name == "ACTIVE":
+            evs.append(("send_fail", "app"))
         if self.connected and c.connection_state.value > 3 and self.w.reader is not None:
             for k in INBOUND:
                 evs.append(("in", k))
@@ -127,6 +129,31 @@ class Sim:
                 res = w.call(c.send_test_req())
             else:
                 res = w.call(c.send_msg(mk_msg(ev[1], c, self.uid)))
+        elif kind == "send_fail":
+            # the transport fails while this frame is handed over: whatever was handed to write() under a number
+            # must be readable from the journal under that number, the next new message takes the next number
+            w.writer.fail()
+            natt = len(w.writer.attempts)
+            res = w.call(c.send_msg(mk_msg("app", c, self.uid)))
+            w.writer.broken = None
+            handed = w.writer.attempts[natt:]
+            for b in handed:
+                f, err = refs.try_parse(b)
+                if f is None:
+                    continue
+                d = refs.fdict(f)
+                n = int(d.get("34", "0") or 0)
+                if n != self.ref_next:
+                    return self._v("new_number_not_consecutive", f"send_fail:app:state:{st}", "every new message leaves with a MsgSeqNum exactly one greater than the previous new message", ev, {"number": n, "ref_next": self.ref_next})
+                self.ref_next += 1
+                self.new_numbers.append(n)
+                self.nt = True
+                row = {(dd, seq): m for (_, dd, seq, m) in journal_rows(w.j)}.get((1, n))
+                if row != b:
+                    return self._v("journal_row_not_bytes", f"send_fail:app:state:{st}", "the exact bytes sent can be read back from the journal under that number", ev, {"row": row, "sent": b})
+            if not handed and num_out(c) != live_before[1]:
+                # nothing was handed to the transport but a number is gone: the next message would leave a hole
+                self.ref_next = num_out(c)
         elif kind == "in":
             k = ev[1]
             n = self.peer_seq
